@@ -111,6 +111,10 @@ pub struct Case {
     /// default zone set through set_timezone (None = the UTC default)
     #[serde(default)]
     pub tz: Option<String>,
+    /// separator convention in force (index into READ_SEPS; 0 = the default): dates contain no separators,
+    /// so how they are read must not depend on it
+    #[serde(default)]
+    pub seps: u8,
 }
 
 /// default zones under which dates are read and computed (calendar dates do not depend on the zone)
@@ -338,14 +342,15 @@ impl Prop for Dates {
         "dates"
     }
     fn check(&self, w: &mut Worker, c: &Case) -> Verdict {
+        let (dec, thou) = crate::common::READ_SEPS[c.seps as usize % 4];
         let cfg = match &c.tz {
-            Some(z) => Cfg::default().with_tz(z),
-            None => Cfg::default(),
+            Some(z) => Cfg::seps(dec, thou).with_tz(z),
+            None => Cfg::seps(dec, thou),
         };
-        let line = case_line(c).render(",", ".");
+        let line = case_line(c).render(dec, thou);
         let rendered = match &c.tz {
-            Some(z) => format!("[{} default zone {}] {}", c.lang, z, line),
-            None => format!("[{}] {}", c.lang, line),
+            Some(z) => format!("[{} default zone {}{}] {}", c.lang, z, if c.seps % 4 != 0 { format!(" dec={:?} thou={:?}", dec, thou) } else { String::new() }, line),
+            None => format!("[{}{}] {}", c.lang, if c.seps % 4 != 0 { format!(" dec={:?} thou={:?}", dec, thou) } else { String::new() }, line),
         };
         let cy0 = current_year();
         let t0 = today_ce();
@@ -567,11 +572,18 @@ pub fn shape_strategy(lang: &'static str) -> impl Strategy<Value = Shape> {
 }
 
 pub fn case_strategy() -> impl Strategy<Value = Case> {
+    (case_strategy_default_separators(), prop_oneof![3 => Just(0u8), 1 => 1u8..4]).prop_map(|(mut c, seps)| {
+        c.seps = seps;
+        c
+    })
+}
+
+fn case_strategy_default_separators() -> impl Strategy<Value = Case> {
     prop_oneof![
-        4 => shape_strategy("en").prop_map(|shape| Case { lang: "en".into(), shape, tz: None }),
-        2 => shape_strategy("tr").prop_map(|shape| Case { lang: "tr".into(), shape, tz: None }),
-        2 => (shape_strategy("en"), prop::sample::select(ZONES.to_vec())).prop_map(|(shape, z)| Case { lang: "en".into(), shape, tz: Some(z.to_string()) }),
-        1 => (shape_strategy("tr"), prop::sample::select(ZONES.to_vec())).prop_map(|(shape, z)| Case { lang: "tr".into(), shape, tz: Some(z.to_string()) }),
+        4 => shape_strategy("en").prop_map(|shape| Case { lang: "en".into(), shape, tz: None, seps: 0 }),
+        2 => shape_strategy("tr").prop_map(|shape| Case { lang: "tr".into(), shape, tz: None, seps: 0 }),
+        2 => (shape_strategy("en"), prop::sample::select(ZONES.to_vec())).prop_map(|(shape, z)| Case { lang: "en".into(), shape, tz: Some(z.to_string()), seps: 0 }),
+        1 => (shape_strategy("tr"), prop::sample::select(ZONES.to_vec())).prop_map(|(shape, z)| Case { lang: "tr".into(), shape, tz: Some(z.to_string()), seps: 0 }),
     ]
 }
 
@@ -583,13 +595,13 @@ pub fn month_grid() -> Vec<Case> {
             for n in 0..=36u32 {
                 for plus in [true, false] {
                     for d in [1u32, 15, 28] {
-                        out.push(Case { lang: "en".into(), shape: Shape::Arith(DateLit { y: Some(y), m, d, spell: Spell::DMonY(0, 0, 0) }, plus, n, Unit::Months, 1, None), tz: None });
+                        out.push(Case { lang: "en".into(), shape: Shape::Arith(DateLit { y: Some(y), m, d, spell: Spell::DMonY(0, 0, 0) }, plus, n, Unit::Months, 1, None), tz: None, seps: 0 });
                     }
                 }
             }
             for n in 0..=5u32 {
                 for plus in [true, false] {
-                    out.push(Case { lang: "en".into(), shape: Shape::Arith(DateLit { y: Some(y), m, d: 15, spell: Spell::Slash(false, false) }, plus, n, Unit::Years, 1, None), tz: None });
+                    out.push(Case { lang: "en".into(), shape: Shape::Arith(DateLit { y: Some(y), m, d: 15, spell: Spell::Slash(false, false) }, plus, n, Unit::Years, 1, None), tz: None, seps: 0 });
                 }
             }
         }
@@ -601,10 +613,10 @@ pub fn month_grid() -> Vec<Case> {
             for (i, _) in names.iter().enumerate() {
                 let pick = ((i as u64 * (1u64 << 32)) / names.len() as u64 + 1) as u32;
                 for cp in 0..4u8 {
-                    out.push(Case { lang: lang.into(), shape: Shape::Literal(DateLit { y: Some(2020), m, d: 12, spell: Spell::DMonY(pick, cp, 0) }), tz: None });
-                    out.push(Case { lang: lang.into(), shape: Shape::Literal(DateLit { y: None, m, d: 12, spell: Spell::DMon(pick, cp, 0) }), tz: None });
+                    out.push(Case { lang: lang.into(), shape: Shape::Literal(DateLit { y: Some(2020), m, d: 12, spell: Spell::DMonY(pick, cp, 0) }), tz: None, seps: 0 });
+                    out.push(Case { lang: lang.into(), shape: Shape::Literal(DateLit { y: None, m, d: 12, spell: Spell::DMon(pick, cp, 0) }), tz: None, seps: 0 });
                     if lang == "en" {
-                        out.push(Case { lang: lang.into(), shape: Shape::Literal(DateLit { y: Some(1999), m, d: 31.min(days_in_month(1999, m as i64) as u32), spell: Spell::MonDY(pick, cp, 0, cp % 2 == 0) }), tz: None });
+                        out.push(Case { lang: lang.into(), shape: Shape::Literal(DateLit { y: Some(1999), m, d: 31.min(days_in_month(1999, m as i64) as u32), spell: Spell::MonDY(pick, cp, 0, cp % 2 == 0) }), tz: None, seps: 0 });
                     }
                 }
             }
@@ -615,7 +627,7 @@ pub fn month_grid() -> Vec<Case> {
 
 pub fn run(ctx: &Ctx) {
     crate::calendar::self_test();
-    ctx.rule("generated: dates of years 1..9999 (uniform day numbers, recent years, month ends, leap days, Dec/Jan, the current year) in every spelling (d/m/y with/without leading zeros and blanks, d Mon y, d Month y, Mon d[,] y, d Mon) in any letter case, English and Turkish (all configured month names incl. ASCII variants); impossible dates (day 0, day past the end of the month incl. 29 Feb of non-leap years, month 0/13); D +- N days|weeks|months|years (+ extra days), A to B in both orders, today/tomorrow/yesterday and their differences; a third of the cases under a non-UTC default zone (GMT+14, GMT-12, EST, CET, IST, NPT, GMT+13:45, GMT-9:30: calendar dates and their arithmetic do not depend on the zone, and the three day constants stay consecutive); oracle: independent proleptic-Gregorian calendar (days-from-civil), month arithmetic = month index moved by N keeping the day of month (asserted only when that day exists and the result is in years 1..9999), differences = |days|*86400 s, output month word/year elision checked; exhaustive grid 12 months x N 0..36 x +- x days {1,15,28}; non-trivial = the operation crosses a month boundary, or a non-canonical spelling, an impossible date, a difference");
+    ctx.rule("generated: dates of years 1..9999 (uniform day numbers, recent years, month ends, leap days, Dec/Jan, the current year) in every spelling (d/m/y with/without leading zeros and blanks, d Mon y, d Month y, Mon d[,] y, d Mon) in any letter case, English and Turkish (all configured month names incl. ASCII variants); impossible dates (day 0, day past the end of the month incl. 29 Feb of non-leap years, month 0/13); D +- N days|weeks|months|years (+ extra days), A to B in both orders, today/tomorrow/yesterday and their differences; a quarter of the cases under one of the other three separator conventions (dates contain no separators), a third of the cases under a non-UTC default zone (GMT+14, GMT-12, EST, CET, IST, NPT, GMT+13:45, GMT-9:30: calendar dates and their arithmetic do not depend on the zone, and the three day constants stay consecutive); oracle: independent proleptic-Gregorian calendar (days-from-civil), month arithmetic = month index moved by N keeping the day of month (asserted only when that day exists and the result is in years 1..9999), differences = |days|*86400 s, output month word/year elision checked; exhaustive grid 12 months x N 0..36 x +- x days {1,15,28}; non-trivial = the operation crosses a month boundary, or a non-canonical spelling, an impossible date, a difference");
     ctx.assume("the clock: expected values for today/current-year are computed from chrono::Utc read before and after each evaluation; a case during which the date changes is skipped");
     ctx.assume("a third of the cases run under a non-UTC default zone; there a bare today/tomorrow/yesterday may be the UTC day or the zone's day (at most one day apart), their differences must still be exactly one and two days");
     ctx.run_table(&Dates, "month-grid+month-names", month_grid(), true);
